@@ -130,6 +130,8 @@ SECC = dict(remove=["cfg_free", "cfg_dupopt_array", "cfg_init_defaults"], carrie
 SECTXT = "7 literal option flag words (MULTI/TITLE/NO_TITLE_DUPES/NOCASE/KEYSTRVAL/DEFINIT) x 2 context flag words; titles 1 byte over all bytes"
 per_count("setopt_sec", counts_quick=(0, 1, 2), counts_thorough=(0, 1, 2), entry="h_setopt_sec", func="cfg_setopt", harness="harness/sections.c",
           cbmc=unw(8) + OOM, label="section arm; " + SECTXT + "; any allocation may fail", props=["C01", "C09", "C10", "C07", "C16", "C18", "C06", "C12", "C19", "C11", "C15", "C02"], cost=60, **SECC)
+U("setopt_sec_oom_release", entry="h_setopt_sec_oom_release", func="cfg_setopt", harness="harness/sections.c", defs={"quick": ["-DNV=2"]}, cbmc=unw(8) + OOM + LEAK,
+  label="bounded(first titled instance of an empty multi section; any allocation may fail; failing outcomes only; leak check)", props=["C07", "C18", "C02"], cost=10, **SECC)
 per_count("gettsec", counts_quick=(0, 1, 2), counts_thorough=(0, 1, 2, 3), entry="h_gettsec", func="cfg_opt_gettsecidx, cfg_opt_gettsec", harness="harness/sections.c",
           cbmc=unw(8), label=SECTXT, props=["C09", "C11", "C02"], cost=20, **SECC)
 per_count("rmnsec", counts_quick=(0, 1, 2), counts_thorough=(0, 1, 2, 3), entry="h_rmnsec", func="cfg_opt_rmnsec", harness="harness/sections.c",
